@@ -194,6 +194,12 @@ class Runner:
         return pred
 
 
+def sig_str(sig):
+    """the signature handed to Check.failure / listed in known_findings.d/C01.json: the shrunk, alpha-renamed program
+    and the entry modes that disagree, as one canonical string"""
+    return json.dumps(sig, sort_keys=True)
+
+
 def load_expected_failures():
     if os.path.exists(EXPECTED_FAILURES):
         return json.load(open(EXPECTED_FAILURES))
@@ -269,7 +275,7 @@ def run(tier, replay=None):
         key = prog_key(ast)
         kn = known.get(key)
         if kn is not None and all(kn["modes"].get(m) == r for m, r in rec.items()):
-            ck.failure(kn["signature"], {"program": name, "src": jscore.render(ast), "modes": rec, "cached_shrink": True})
+            ck.failure(sig_str(kn["signature"]), {"program": name, "src": jscore.render(ast), "modes": rec, "cached_shrink": True})
             continue
         # reproducibility: the same scenarios once more on fresh contexts
         again, _ = runner.compare([(name, ast, sorted(mm))], budget)
@@ -284,7 +290,7 @@ def run(tier, replay=None):
         small = canonical(small)
         allmodes = set(mm) >= set(modes_for(ast, False))
         sig = {"src": jscore.render(small), "modes": "all" if allmodes else sorted(mm)}
-        ck.failure(sig, {"program": name, "src": jscore.render(ast), "shrunk": jscore.render(small), "modes": rec})
+        ck.failure(sig_str(sig), {"program": name, "src": jscore.render(ast), "shrunk": jscore.render(small), "modes": rec})
 
     ck.cov.update(states=runner.tlc_states, transitions=runner.tlc_trans, traces_validated_against_impl=total_eval,
                   programs=len(items), grid_programs=len(grid), corpus_programs=len(corpus), evaluations=total_eval,
@@ -345,7 +351,11 @@ def _build_corpus(profile, seed, n):
 def _vet(tier):
     bindir = _bindir()
     runner = Runner(None, os.path.join(bindir, "hjs"), 3)
-    items = [(n, a, modes_for(a, True)) for n, a in jscore.grids(tier)] + [(n, a, modes_for(a, True)) for n, a in load_corpus()]
+    fams = os.environ.get("C01_VET_FAMILIES")          # restrict to some grid families and merge into the existing file
+    if fams:
+        items = [(n, a, modes_for(a, True)) for n, a in jscore.grids(tier, fams.split(","))]
+    else:
+        items = [(n, a, modes_for(a, True)) for n, a in jscore.grids(tier)] + [(n, a, modes_for(a, True)) for n, a in load_corpus()]
     fails = []
     for b0 in range(0, len(items), 1500):
         part = items[b0:b0 + 1500]
@@ -359,7 +369,7 @@ def _vet(tier):
         mism, _ = runner.compare([("cand", c, [modes[i]]) for i, c in cands], 256)
         return [j in mism for j in range(len(cands))]
     small = jscore.shrink_many([a for _, a, _ in fails], pred, max_rounds=30, limit=40, log=vlib.log)
-    out = {}
+    out = load_expected_failures() if fams else {}
     for (name, ast, mm), sm in zip(fails, small):
         allmodes = set(mm) >= set(modes_for(ast, False))
         sig = {"src": jscore.render(canonical(sm)), "modes": "all" if allmodes else sorted(mm)}
